@@ -37,8 +37,25 @@ let bits (p : prim) (tag : n list) (msg : n list) (muts : string) : string =
     let (t, m) = mutate mu tag msg in if p.pverify t m then "1" else "0")
     (List.filter (fun s -> s <> "") (split ';' muts)))
 let stage_str st = "rej" ^ string_of_int (int_of_n st)
+let hash_of = function
+  | "SHA1" -> Some SHA1 | "SHA224" -> Some SHA224 | "SHA256" -> Some SHA256
+  | "SHA384" -> Some SHA384 | "SHA512" -> Some SHA512 | _ -> None
 let handle line =
   match String.split_on_char '|' line with
+  | [_; "W"; hash; key; ops] ->
+    (* a crypto/hmac object AS CODED (model/HmacCode.v) over the accumulating streaming hash;
+       sha1/sha2 of the standard library are marshalable *)
+    (match hash_of hash with
+     | None -> "BADCASE"
+     | Some h ->
+       let ops = List.map (fun t ->
+         let rest = String.sub t 1 (String.length t - 1) in
+         match t.[0] with
+         | 'w' -> HWrite (unhex rest) | 's' -> HSum (unhex rest) | 'r' -> HReset
+         | _ -> failwith "op") (split ';' ops) in
+       let st = hm_new acc_init acc_write (hash_o h) (block_size h) (unhex key) in
+       let (_, outs) = hm_run acc_init acc_write (hash_o h) true st ops in
+       "ok|" ^ String.concat "," (List.map hexs outs))
   | _ :: "M" :: keys :: primary :: use :: msg :: muts :: _ ->
     let specs = List.map (fun ks -> match split ',' ks with
       | [a; k; t; v; id] -> ((((alg_of a, unhex k), nat_of_int (int_of_string t)), variant_of v), n_of_dec id)
